@@ -50,7 +50,8 @@ def clone_tree(tree, name, scratch):
 # control files
 # --------------------------------------------------------------------------
 def render_lines(lines, noise):
-    """The documented freedoms of a control file (qmail-control(5)): comments, trailing spaces and tabs."""
+    """The documented freedoms of a control file (qmail-control(5)): comments, trailing spaces and tabs, empty lines, a last
+    line without its line feed."""
     out = []
     for n, l in enumerate(lines):
         if noise and (n + noise) % 3 == 0:
@@ -60,7 +61,12 @@ def render_lines(lines, noise):
         out.append(l + ("" if not noise else ["", " ", "\t", " \t "][(n + noise) % 4]))
     if noise and noise % 2:
         out.append("#")
-    return "".join(l + "\n" for l in out)
+    if noise and noise % 4 == 2:
+        out.insert(len(out) // 2, "")          # an empty line
+    text = "".join(l + "\n" for l in out)
+    if noise in (2, 4) and text:
+        text = text[:-1]                       # the last line is not terminated (it still counts)
+    return text
 
 
 def control_texts(cfg):
